@@ -293,7 +293,12 @@ def rule_refspec(run):
     c08.rule_refspec_reads(run)
 
 
-RULES = [rule_roles, rule_usage, rule_local, rule_views, rule_writeback, rule_names, rule_buffers, rule_temporaries_local, rule_refspec]
+def rule_visit_stateless(run):
+    from ..rules import roles as _r
+    _r.run_memo_rule(run, "F-VISIT.memo")   # every traversal (driver check, sensitivity, definite assignment) sees the whole statement
+
+
+RULES = [rule_roles, rule_usage, rule_local, rule_views, rule_writeback, rule_names, rule_buffers, rule_temporaries_local, rule_refspec, rule_visit_stateless]
 LEVEL = "other"
 EXPLANATION = (
     "The single-driver guarantee rests on hand-written access flags and one usage check; both are decided for all "
